@@ -91,3 +91,36 @@ func VerifRBACEntryTimes(rm *RBACManager, tokenID int64, database, measurement, 
 	}
 	return
 }
+
+// VerifObserveSweeps registers fn to be told when the token-cache janitor
+// (cleanupLoop -> cleanupExpiredCache) begins (begin=true) and ends (begin=false) a sweep of a manager's cache;
+// nil unregisters. Observation only: the sweep that runs is arc's own
+// cleanupExpiredCache, driven by arc's own ticker. The F-seam that simgen
+// prepends to cleanupExpiredCache replaces the call, so the observer switches
+// the seam off around its own call of the real function (one task runs at a
+// time; a sweep of another manager that begins meanwhile goes unobserved,
+// which only loses an observation).
+func VerifObserveSweeps(fn func(am *AuthManager, begin bool)) {
+	verifSweepObserver = fn
+	if fn == nil {
+		SimHook_cleanupExpiredCache = nil
+		return
+	}
+	SimHook_cleanupExpiredCache = verifSweepSeam
+}
+
+var verifSweepObserver func(am *AuthManager, begin bool)
+
+func verifSweepSeam(am *AuthManager) {
+	if f := verifSweepObserver; f != nil {
+		f(am, true)
+	}
+	SimHook_cleanupExpiredCache = nil
+	defer func() {
+		if f := verifSweepObserver; f != nil {
+			SimHook_cleanupExpiredCache = verifSweepSeam
+			f(am, false)
+		}
+	}()
+	am.cleanupExpiredCache()
+}
